@@ -52,12 +52,18 @@ pub fn check(t: &Trace<'_>, out: &mut CaseOut) -> bool {
                 // a completed handle whose identifier is carried, after the counter came round
                 // again, by a later operation of the same broker session that is in flight now
                 let carried = want == 2 && *st == 1 && m.msgs.iter().any(|x| x.pid == msg.pid && x.epoch == msg.epoch && x.op != msg.op && msg.ended_ev.is_some_and(|e| x.ev_accept > e) && x.ev_accept < ev && x.ended_ev.is_none_or(|e| e >= ev));
+                // (the counter can only come round by 65535 allocations; in these workloads that
+                // is always the work of the positioning hook or of a run of burnt identifiers)
+                let came_round = carried && {
+                    let later = m.msgs.iter().filter(|x| x.pid == msg.pid && x.epoch == msg.epoch && x.op != msg.op && msg.ended_ev.is_some_and(|e| x.ev_accept > e) && x.ev_accept < ev).map(|x| x.ev_accept).max().unwrap_or(ev);
+                    t.w.events[msg.ev_accept.min(later)..later].iter().any(|e| matches!(e, Ev::Step { idx } if matches!(t.log.steps[*idx], crate::steps::Step::SetNextPid(_) | crate::steps::Step::BurnIds(_))))
+                };
                 if carried {
                     out.count("completed_handles_whose_identifier_is_in_use_again", 1);
                 }
                 out.violations.push(viol(
                     "C18",
-                    if carried { "C18/status/complete-reported-pending/identifier-carried-by-a-later-operation".to_string() } else { format!("C18/status/{}-reported-{}/{}", name(want), name(*st), msg.kind) },
+                    if carried && came_round { "C18/status/complete-reported-pending/identifier-carried-by-a-later-operation".to_string() } else if carried { "C18/status/complete-reported-pending/identifier-handed-out-again-before-the-counter-came-round".to_string() } else { format!("C18/status/{}-reported-{}/{}", name(want), name(*st), msg.kind) },
                     format!("handle {} (op#{} {} id {}): reports {} but the reference model says {} at event {}", h, msg.op, msg.kind, msg.pid, name(*st), name(want), ev),
                 ));
             }
